@@ -33,8 +33,9 @@ CLAIMED['C11'] = dict(
         "move on any exit, next/move_to/move_past bookkeeping, end-of-stream iff only whitespace is left; the tiling "
         "and at-most-len(s)-reads statements are lemmas over these contracts.",
    ref="DESIGN.md section 5, C11",
-   note=NOTE + "; LatexContextDb.test_for_specials/get_specials_spec and the environment-name regular expression "
-        "enter as assumed interface contracts (A-LIB); LatexTokenListTokenReader is not covered")
+   note=NOTE + "; the environment-name regular expression enters as an assumed contract (A-LIB); "
+        "LatexContextDb.test_for_specials/get_specials_spec are verified by their own units (shared with C14); "
+        "LatexTokenListTokenReader is not covered")
 
 CLAIMED['C19'] = dict(
    text="Unbounded proof with a ghost trace (z3 sequence of visit events) that, for every node class, "
@@ -44,6 +45,22 @@ CLAIMED['C19'] = dict(
         "any length (loop invariant over the real descend loop). Children enter through the interface contract "
         "trace' = trace ++ PO(child); the structural induction over the tree is stated, not mechanised.",
    ref="DESIGN.md section 5, C19")
+
+CLAIMED['C14'] = dict(
+   text="Unbounded proof over an abstract view (category sequence, per-category dictionaries as uninterpreted content) "
+        "that the representation invariant 'each chain map mirrors category_list item for item' is established by "
+        "__init__ and preserved by add_context_category in all four placement modes (inserted at the documented index, "
+        "rejected without change when frozen / duplicate), by the unknown-spec setters and freeze; that "
+        "get_macro/environment/specials_spec return the definition of the first category in order that defines the "
+        "name, else the unknown spec; that test_for_specials returns a longest match over all categories (two nested "
+        "loop invariants); and that extended_with returns a new frozen database satisfying the invariant with the "
+        "documented view while leaving its parent's category list, dictionaries and chain maps unchanged. "
+        "Induction over build histories = the invariant.",
+   ref="DESIGN.md section 5, C14",
+   note=NOTE + "; A-DB: dict(...) of a comprehension over specs is a fresh dictionary of unknown content, ChainMap looks "
+        "keys up through .maps in order, a specials spec is stored under its own specials_chars; not covered: "
+        "filtered_context, iter_*_specs, auto-generated category names (_get_new_autogen_category assumed), 'first "
+        "among equally long' specials")
 
 NA = {
 }
